@@ -183,6 +183,37 @@ func runSession(e *xast.Expr, mode string, ds []*vdoc.Doc, cs [][2]int, skel []s
 			return s
 		}
 	}
+	// every iterator still open is drained, then asked 3 more times: MoveNext must keep returning
+	// false, and Current must stay on the node just delivered while other iterators move (C12)
+	for k, st := range its {
+		for n := 0; !st.done && n < 4*ds[0].Len()+64; n++ {
+			ev := hev{"it": k + 1}
+			if !call("MoveNext", ev, func() {
+				r := st.it.MoveNext()
+				ev["ret"] = r
+				if r {
+					ev["cur"] = vdoc.IDOf(st.it.Current())
+					st.delivered++
+				} else {
+					st.done = true
+				}
+			}) {
+				return s
+			}
+		}
+		for x := 0; x < 3; x++ {
+			ev := hev{"it": k + 1}
+			if !call("MoveNext", ev, func() {
+				r := st.it.MoveNext()
+				ev["ret"] = r
+				if r {
+					ev["cur"] = vdoc.IDOf(st.it.Current())
+				}
+			}) {
+				return s
+			}
+		}
+	}
 	// count(e) and reverse(e) through separately compiled expressions (C12)
 	if nodeSet {
 		d, node := ds[cs[0][0]-1], cs[0][1]
@@ -275,7 +306,7 @@ func cmdHist(args []string) {
 				ds := []*vdoc.Doc{docs[d1]}
 				cs := [][2]int{{1, 1 + r.Intn(docs[d1].Len())}}
 				// slot 2: another node of the same document, or a node of another document
-				if r.Intn(3) == 0 {
+				if r.Intn(2) == 0 {
 					d2 := r.Intn(len(docs))
 					ds = append(ds, docs[d2])
 					cs = append(cs, [2]int{2, 1 + r.Intn(docs[d2].Len())})
